@@ -463,10 +463,10 @@ V({
 # -------------------------------------------------------------------------- V13
 V({
     "id": "V13",
-    "title": "may_invalidate: MayInvalidate::{aggregate_generic_args, aggregate_tys, aggregate_consts, aggregate_placeholders, aggregate_projection_tys, aggregate_opaque_ty_tys} (chalk-engine/src/slg.rs)",
+    "title": "may_invalidate: MayInvalidate::{aggregate_generic_args, aggregate_tys, aggregate_consts, aggregate_lifetimes, aggregate_placeholders, aggregate_projection_tys, aggregate_opaque_ty_tys} (chalk-engine/src/slg.rs)",
     "template": "v13_may_invalidate.rs",
     "assumptions": [
-        "V13: callee contracts not verified: aggregate_name_and_substs (iterator+closure: false only if names equal and arguments pairwise instances), aggregate_lifetimes (always true); aggregate_consts IS verified (mutually recursive with aggregate_tys, decreases on term height)",
+        "V13: callee contracts not verified: aggregate_name_and_substs (iterator+closure: false only if names equal and arguments pairwise instances), aggregate_lifetimes is extracted too (edit D5 names its two `_` parameters) and held against 'cannot invalidate only for the same lifetime'; aggregate_consts IS verified (mutually recursive with aggregate_tys, decreases on term height)",
         "V13: aggregate_generic_args: precondition = both arguments are of the same kind (the code panics otherwise); for lifetimes the contract admits 'cannot invalidate' only for the SAME lifetime (the pinned code never claims it); GenericArg::data returns the interned data, a canonical argument holds a canonical type / constant",
         "V13: constants are finite trees (a constant's type is smaller than the constant, an array's length constant smaller than the array type); a canonical constant has a canonical type and is not an inference variable: Const::data's contract; ConcreteConst::const_eq is the interner's (uninterpreted) equality",
         "V13: types are finite trees; canonical forms contain no free inference variables (the code panics on one): Ty::kind's contract",
